@@ -62,6 +62,9 @@ type Reach struct {
 	// type, or has interface/function-typed parameters it may be forwarding).
 	PreciseCallbacks bool
 	TrackEntry       bool
+	// FollowGated: also follow the flag-gated dispatch c.f(t,c) (for questions
+	// about everything that can execute under a frame, whatever its flags).
+	FollowGated bool
 	prev             map[searchState]searchHop
 	order   []searchState
 }
@@ -95,7 +98,7 @@ func (r *Reach) Run(sources []*ssa.Function, visit func(e *callgraph.Edge, calle
 			if r.CutEdge != nil && r.CutEdge(e) {
 				continue
 			}
-			if r.p.isGatedDispatch(e) {
+			if !r.FollowGated && r.p.isGatedDispatch(e) {
 				continue
 			}
 			callee := e.Callee.Func
